@@ -1,15 +1,15 @@
 (* Proofs_ListProg.v — soundness of the may-alias analysis `may_mutate_shared` w.r.t. the heap semantics of ListProg. *)
-From Coq Require Import List Bool Arith PeanoNat Lia.
+From Coq Require Import List Bool Arith PeanoNat NArith Lia.
 From Purity Require Import Model.
 Import ListNotations.
 
 (* ------------------------------------------------------------------------------------------------ *)
 (** * finite sets as lists *)
 
-Lemma mem_addn : forall m n X, mem m (addn n X) = Nat.eqb m n || mem m X.
+Lemma mem_addn : forall m n X, mem m (addn n X) = N.eqb m n || mem m X.
 Proof.
   intros. unfold addn. destruct (mem n X) eqn:E; simpl; auto.
-  destruct (Nat.eqb m n) eqn:F; simpl; auto. apply Nat.eqb_eq in F. subst. auto.
+  destruct (N.eqb m n) eqn:F; simpl; auto. apply N.eqb_eq in F. subst. auto.
 Qed.
 
 Lemma mem_union : forall m T X, mem m (union X T) = mem m X || mem m T.
@@ -17,17 +17,17 @@ Proof.
   induction T; intros; simpl.
   - rewrite orb_false_r. reflexivity.
   - unfold union in *. simpl. rewrite mem_addn. rewrite IHT.
-    destruct (Nat.eqb m a), (mem m X), (mem m T); reflexivity.
+    destruct (N.eqb m a), (mem m X), (mem m T); reflexivity.
 Qed.
 
-Lemma mem_remn : forall m n X, mem m (remn n X) = negb (Nat.eqb m n) && mem m X.
+Lemma mem_remn : forall m n X, mem m (remn n X) = negb (N.eqb m n) && mem m X.
 Proof.
   induction X; intros; simpl.
   - rewrite andb_false_r. reflexivity.
-  - destruct (Nat.eqb n a) eqn:E.
-    + apply Nat.eqb_eq in E. subst. rewrite IHX. destruct (Nat.eqb m a); reflexivity.
-    + simpl. rewrite IHX. destruct (Nat.eqb m a) eqn:F; simpl.
-      * apply Nat.eqb_eq in F. subst. rewrite Nat.eqb_sym in E. rewrite E. reflexivity.
+  - destruct (N.eqb n a) eqn:E.
+    + apply N.eqb_eq in E. subst. rewrite IHX. destruct (N.eqb m a); reflexivity.
+    + simpl. rewrite IHX. destruct (N.eqb m a) eqn:F; simpl.
+      * apply N.eqb_eq in F. subst. rewrite N.eqb_sym in E. rewrite E. reflexivity.
       * reflexivity.
 Qed.
 
@@ -36,7 +36,7 @@ Proof.
   unfold subset. induction X; simpl; intros; try discriminate.
   apply andb_true_iff in H. destruct H.
   apply orb_true_iff in H0. destruct H0.
-  - apply Nat.eqb_eq in H0. subst. assumption.
+  - apply N.eqb_eq in H0. subst. assumption.
   - eauto.
 Qed.
 
@@ -44,7 +44,7 @@ Lemma subset_intro : forall X T, (forall n, mem n X = true -> mem n T = true) ->
 Proof.
   unfold subset. induction X; simpl; intros; auto.
   apply andb_true_iff. split.
-  - apply H. rewrite Nat.eqb_refl. reflexivity.
+  - apply H. rewrite N.eqb_refl. reflexivity.
   - apply IHX. intros. apply H. rewrite H0. apply orb_true_r.
 Qed.
 
@@ -52,10 +52,10 @@ Lemma mem_In : forall n X, mem n X = true <-> In n X.
 Proof.
   induction X; simpl; split; intros; try discriminate; try contradiction.
   - apply orb_true_iff in H. destruct H.
-    + apply Nat.eqb_eq in H. auto.
+    + apply N.eqb_eq in H. auto.
     + right. apply IHX. assumption.
   - apply orb_true_iff. destruct H.
-    + left. subst. apply Nat.eqb_refl.
+    + left. subst. apply N.eqb_refl.
     + right. apply IHX. assumption.
 Qed.
 
@@ -105,7 +105,7 @@ Proof. unfold next. intros. destruct (orc st); inversion H; subst; simpl; auto. 
 Lemma lenv_setv_other : forall st x v n, ~ In n (lvar x) -> alookup (lenv (setv st x v)) n = alookup (lenv st) n.
 Proof.
   intros. destruct x; simpl in *; auto.
-  destruct (Nat.eqb n n0) eqn:E; auto. apply Nat.eqb_eq in E. subst. tauto.
+  destruct (N.eqb n n0) eqn:E; auto. apply N.eqb_eq in E. subst. tauto.
 Qed.
 
 Lemma exec_abort : forall fuel ds s st, md st <> MNormal -> exec fuel ds s st = st.
@@ -134,7 +134,7 @@ Proof.
     destruct (getv st1 x); simpl; try (rewrite H1; auto; fail).
     destruct (hget (hp st1) l); simpl; try (rewrite H1; auto; fail).
     destruct (apply_mut k (hp st1) o (evale st1 e) j); simpl; try rewrite hset_length; rewrite H1; auto.
-  - destruct (nth_error ds f) as [d|]; simpl; auto.
+  - destruct (nth_error ds (N.to_nat f)) as [d|]; simpl; auto.
     set (st0 := mkSt _ _ _ _ _). pose proof (IHfuel (body d) st0) as I. simpl in I.
     destruct (md (exec fuel ds (body d) st0)); simpl; try rewrite hp_setv; simpl; auto.
   - destruct (next st) as [j st1] eqn:N. apply next_lenv in N. destruct N as (_ & _ & H1 & _).
@@ -168,7 +168,7 @@ Proof.
   simpl. destruct (md st) eqn:M; auto.
   destruct s; simpl in *; auto.
   - left. apply lenv_setv_other; auto.
-  - destruct x; simpl; auto. destruct (Nat.eqb n n0); simpl; auto.
+  - destruct x; simpl; auto. destruct (N.eqb n n0); simpl; auto.
   - destruct (next st) as [j st1] eqn:N. apply next_lenv in N. destruct N as (L & _).
     left. destruct (read k (hp st1) (getv st1 y) j).
     + rewrite lenv_setv_other; auto. rewrite L. auto.
@@ -177,14 +177,14 @@ Proof.
     destruct (next st1) as [j' st2] eqn:N2. apply next_lenv in N2. destruct N2 as (L2 & _ & H2 & _).
     destruct (build k st2 j j').
     + simpl. destruct x; simpl.
-      * destruct (Nat.eqb n n0); simpl; [right; rewrite H2, H1; auto | left; rewrite L2, L; auto].
+      * destruct (N.eqb n n0); simpl; [right; rewrite H2, H1; auto | left; rewrite L2, L; auto].
       * left. rewrite L2, L. auto.
     + left. simpl. rewrite L2, L. auto.
   - destruct (next st) as [j st1] eqn:N. apply next_lenv in N. destruct N as (L & _).
     left. destruct (getv st1 x); simpl; try (rewrite L; auto; fail).
     destruct (hget (hp st1) l); simpl; try (rewrite L; auto; fail).
     destruct (apply_mut k (hp st1) o (evale st1 e) j); simpl; rewrite L; auto.
-  - left. destruct (nth_error ds f) as [d|]; simpl; auto.
+  - left. destruct (nth_error ds (N.to_nat f)) as [d|]; simpl; auto.
     set (st1 := exec fuel ds (body d) _). destruct (md st1); simpl; auto;
       rewrite lenv_setv_other; auto.
   - destruct (next st) as [j st1] eqn:N. apply next_lenv in N. destruct N as (L & _).
@@ -236,7 +236,7 @@ Proof.
     destruct (getv st1 x); simpl; try congruence.
     destruct (hget (hp st1) l); simpl; try congruence.
     destruct (apply_mut k (hp st1) o (evale st1 e) j); simpl; congruence.
-  - destruct (nth_error ds f) as [d|]; simpl; try congruence.
+  - destruct (nth_error ds (N.to_nat f)) as [d|]; simpl; try congruence.
     set (st1 := exec fuel ds (body d) _). destruct (md st1); simpl; try congruence;
       rewrite md_setv; simpl; congruence.
   - destruct (next st) as [j st1] eqn:N. apply next_lenv in N. destruct N as (_ & _ & _ & MM).
@@ -267,8 +267,8 @@ Section Sound.
   Let n0 := length h0.
 
   Definition fresh_val (v : val) : Prop := match v with VRef l => n0 <= l | VOpq => True end.
-  Definition okL (X : aset) (le : list (nat * val)) : Prop := forall n, mem n X = false -> fresh_val (alookup le n).
-  Definition okG (ge : list (nat * val)) : Prop := forall g, mem g gsh = false -> fresh_val (alookup ge g).
+  Definition okL (X : aset) (le : list (N * val)) : Prop := forall n, mem n X = false -> fresh_val (alookup le n).
+  Definition okG (ge : list (N * val)) : Prop := forall g, mem g gsh = false -> fresh_val (alookup ge g).
   Definition okH (h : heap) : Prop := n0 <= length h /\ forall l, l < n0 -> nth_error h l = nth_error h0 l.
   Definition calls_ok (s : stmt) : Prop := forall g, In g (calls s) -> mem g scp = true.
 
@@ -290,11 +290,11 @@ Section Sound.
       unfold okL in *. intros m Hm. simpl.
       destruct c.
       + rewrite mem_addn in Hm. apply orb_false_iff in Hm. destruct Hm as [E Hm]. rewrite E. auto.
-      + rewrite mem_remn in Hm. destruct (Nat.eqb m n) eqn:E; simpl in Hm; auto.
+      + rewrite mem_remn in Hm. destruct (N.eqb m n) eqn:E; simpl in Hm; auto.
     - inversion H; subst; clear H. split; auto.
       unfold okG in *. intros g Hg. simpl.
-      destruct (Nat.eqb g n) eqn:E; auto.
-      apply Nat.eqb_eq in E. subst.
+      destruct (N.eqb g n) eqn:E; auto.
+      apply N.eqb_eq in E. subst.
       destruct c; auto. rewrite Hg in H5. simpl in H5. discriminate.
   Qed.
 
@@ -316,9 +316,9 @@ Section Sound.
   Proof. intros. destruct a; simpl in *; auto. discriminate. Qed.
 
   Lemma fun_ok_inv : forall f, fun_ok ds gsh scp f = true ->
-      exists d, nth_error ds f = Some d /\ snd (an gsh (body d) (params d)) = [] /\ calls_ok (body d).
+      exists d, nth_error ds (N.to_nat f) = Some d /\ snd (an gsh (body d) (params d)) = [] /\ calls_ok (body d).
   Proof.
-    unfold fun_ok. intros. destruct (nth_error ds f); try discriminate.
+    unfold fun_ok. intros. destruct (nth_error ds (N.to_nat f)); try discriminate.
     apply andb_true_iff in H. destruct H. exists f0. split; auto. split.
     - destruct (snd (an gsh (body f0) (params f0))); auto; discriminate.
     - unfold calls_ok. intros. rewrite forallb_forall in H0. auto.
@@ -576,3 +576,76 @@ Proof.
     assert (l < length h) by (apply nth_error_Some; congruence).
     rewrite HF; auto.
 Qed.
+
+(* ------------------------------------------------------------------------------------------------ *)
+(** * the tabulated check agrees with the direct one *)
+
+Lemma fun_ok_t_eq : forall ds gsh scp f, fun_ok_t ds (viol_table ds gsh) scp f = fun_ok ds gsh scp f.
+Proof.
+  intros. unfold fun_ok_t, fun_ok, viol_table.
+  rewrite nth_error_map. destruct (nth_error ds (N.to_nat f)); reflexivity.
+Qed.
+
+Lemma prog_ok_t_eq : forall P, prog_ok_t (viol_table (defs P) (gshd P)) P = prog_ok P.
+Proof.
+  intros. unfold prog_ok_t, prog_ok. f_equal.
+  generalize (scope P) at 1 3. intro scp. generalize (scope P). intro l.
+  induction l; simpl; auto. rewrite fun_ok_t_eq, IHl. reflexivity.
+Qed.
+
+Lemma cached_pure : forall tbl P,
+    tbl = viol_table (defs P) (gshd P) -> prog_ok_t tbl P = true -> may_mutate_shared P = false.
+Proof.
+  intros. subst. rewrite prog_ok_t_eq in H0. unfold may_mutate_shared. rewrite H0. reflexivity.
+Qed.
+
+Lemma cached_all_pure : forall ds gsh tbl specs,
+    tbl = viol_table ds gsh ->
+    forallb (fun se => prog_ok_t tbl (helper ds gsh se)) specs = true ->
+    forallb (fun p => negb (may_mutate_shared p)) (map (helper ds gsh) specs) = true.
+Proof.
+  intros. rewrite forallb_forall in *. intros p Hp.
+  apply in_map_iff in Hp. destruct Hp as (se & E & I). subst p.
+  rewrite (cached_pure tbl); auto.
+Qed.
+
+(* ------------------------------------------------------------------------------------------------ *)
+(** * the hypothesis of [analysis_sound] is satisfiable; the analysis is not vacuous *)
+
+Local Open Scope N_scope.
+
+(* DoMultiplyDim.remap_idx as repaired:   idx = idx.copy(); ...; idx[hi_idx] = prod; del idx[lo_idx]; return idx *)
+Definition remap_idx_fixed : fdef :=
+  mkFdef [0] (SSeq (SAlloc (Loc 0) (ACopy (Loc 0)))
+             (SSeq (SRead (Loc 1) RItem (Loc 0))
+             (SSeq (SMut 1908 MSetItem (Loc 0) (EV (Loc 1)))
+             (SSeq (SMut 1909 MDelItem (Loc 0) EO)
+                   (SReturn (EV (Loc 0))))))).
+
+(* ... and before the repair: the same without the copy *)
+Definition remap_idx_prefix : fdef :=
+  mkFdef [0] (SSeq (SRead (Loc 1) RItem (Loc 0))
+             (SSeq (SMut 1908 MSetItem (Loc 0) (EV (Loc 1)))
+             (SSeq (SMut 1909 MDelItem (Loc 0) EO)
+                   (SReturn (EV (Loc 0)))))).
+
+Example fixed_is_pure : may_mutate_shared (mkProg [remap_idx_fixed] [] [0] 0) = false.
+Proof. vm_compute. reflexivity. Qed.
+
+Example prefix_is_flagged : may_mutate_shared (mkProg [remap_idx_prefix] [] [0] 0) = true.
+Proof. vm_compute. reflexivity. Qed.
+
+(* the flag is not a false alarm: a concrete run edits the caller's list in place *)
+Example prefix_breaks_frame :
+  exists fuel o h args, ~ frame h (run (mkProg [remap_idx_prefix] [] [0] 0) fuel o h args).
+Proof.
+  exists 10%nat, [0; 0; 1]%nat, [OList [VOpq; VOpq]], [VRef 0%nat].
+  intro F. specialize (F 0%nat _ eq_refl). vm_compute in F. discriminate.
+Qed.
+
+(* and the repaired version leaves it alone on the same input *)
+Example fixed_keeps_frame :
+  run (mkProg [remap_idx_fixed] [] [0] 0) 10%nat [0; 0; 0; 0; 1]%nat [OList [VOpq; VOpq]] [VRef 0%nat]
+  = [OList [VOpq; VOpq]; OList [VOpq]].
+Proof. vm_compute. reflexivity. Qed.
+
